@@ -121,6 +121,10 @@ class EncoderLayout:
         if isinstance(n, ast.Subscript):
             base = self.vdesc(n.value)
             ok2, k = self.fold(n.slice)
+            if ok2 and isinstance(k, int) and isinstance(base, tuple) and base[:1] == ("bufref",) and base[1] in self.bufs \
+                    and 0 <= k < len(self.bufs[base[1]]) and self.bufs[base[1]][k][0] == "byte" \
+                    and all(sg[0] == "byte" for sg in self.bufs[base[1]][:k]):
+                return self.bufs[base[1]][k][1]       # byte k of a buffer built here: the value that was put there
             if ok2:
                 return ("item", base, k)
             return ("item", base, U(n.slice))
@@ -240,6 +244,12 @@ class EncoderLayout:
                 self.iter_order = getattr(self, "iter_order", [])
                 self.iter_order.append(U(g.iter))
                 return [("repeat", g.iter.attr, g.target.id, tuple(segs))]
+        if isinstance(n, ast.Constant) and isinstance(n.value, (bytes, bytearray)):
+            return [("byte", ("const", int(b)), "0x%02x" % b) for b in n.value]       # b'\xc0\x00': one constant byte each
+        if isinstance(n, ast.Call) and isinstance(n.func, ast.Name) and n.func.id == "bytearray" and len(n.args) == 1 and not n.keywords \
+                and isinstance(n.args[0], ast.Constant) and isinstance(n.args[0].value, (bytes, bytearray)):
+            self.calls.add("bytearray")
+            return self.bufexpr(n.args[0])
         if isinstance(n, ast.Call) and isinstance(n.func, ast.Name):
             f = n.func.id
             self.calls.add(f)
@@ -314,6 +324,9 @@ class EncoderLayout:
                 if b in self.bufs and m == "append" and len(c.args) == 1:
                     self.bufs[b] = self.bufs[b] + [("byte", self.vdesc(c.args[0]), U(c.args[0]))]
                     return
+                if b in self.bufs and m == "insert" and len(c.args) == 2 and self.fold(c.args[0]) == (True, 0):
+                    self.bufs[b] = [("byte", self.vdesc(c.args[1]), U(c.args[1]))] + self.bufs[b]       # one byte in front
+                    return
                 if b == "log":
                     return
             raise AnalysisError("encoder of %s: statement %s not understood" % (self.cls.name, U(s)))
@@ -358,6 +371,27 @@ class EncoderLayout:
                 x = s.value.args[0]
                 self.vals[t.elts[0].id] = ("hi8", U(x), x)
                 self.vals[t.elts[1].id] = ("lo8", U(x), x)
+                return
+            if isinstance(t, ast.Subscript) and isinstance(t.value, ast.Name) and self.canon(t.value.id) in self.bufs \
+                    and isinstance(t.slice, ast.Slice) and t.slice.step is None and t.slice.upper is not None \
+                    and self.fold(t.slice.upper) == (True, 0) and (t.slice.lower is None or self.fold(t.slice.lower) == (True, 0)):
+                # buf[0:0] = X / buf[:0] = X: X goes in front of what buf holds.  What buf held becomes a buffer of its own (so that a
+                # length measured in X - the remaining length - is the length of exactly that part)
+                bn = self.canon(t.value.id)
+                body_name = bn + "@body%d" % len([k for k in self.bufs if k.startswith(bn + "@body")])
+                old = list(self.bufs[bn])
+                self.bufs[body_name] = old
+                front = self.bufexpr(s.value)
+
+                def ren(x):
+                    if isinstance(x, tuple):
+                        if x[:2] == ("bufref", bn):
+                            return ("bufref", body_name) + tuple(x[2:])
+                        return tuple(ren(y) for y in x)
+                    if isinstance(x, list):
+                        return [ren(y) for y in x]
+                    return x
+                self.bufs[bn] = [ren(sg) for sg in front] + [("sub", body_name, tuple(old))]
                 return
             if isinstance(t, ast.Subscript) and isinstance(t.value, ast.Name) and self.canon(t.value.id) in self.bufs:
                 ok, i = self.fold(t.slice)
@@ -674,6 +708,31 @@ class DecoderLayout:
         self.lenvar = None
         self.body, self.helpers = inlined_body(prog, cls, self.fn)
         self._run(self.body)
+        self._merge_manual_strings(self.reads)
+
+    def _merge_manual_strings(self, reads):
+        """n = decode16Int(rest[o:]) ... rest[o+2:o+2+n].decode('utf-8')  is decodeString written out: the two reads become the
+        one string read at o (what the encoder's encodeString is compared with).  The length read stays when a field keeps it."""
+        for r in list(reads):
+            if r.get("kind") == "repeat":
+                self._merge_manual_strings(r["body"])
+                continue
+            if r.get("kind") != "text" or r.get("upto") is None or not isinstance(r.get("off"), Lin):
+                continue
+            enc = (r.get("encoding") or "utf-8")
+            if not (isinstance(enc, str) and enc.lower().replace("_", "-") in ("utf-8", "utf8")):
+                continue
+            for u in reads:
+                if u.get("kind") == "u16" and isinstance(u.get("off"), Lin) and u.get("sym") and u["guard"] == r["guard"] \
+                        and r["off"] == u["off"].add(Lin(2)) and r["upto"] == r["off"].add(Lin(0, (u["sym"],))):
+                    r["kind"] = "str"
+                    r["off"] = u["off"]
+                    r["sym"] = u["sym"]
+                    r["consumed"] = True
+                    r.pop("upto", None)
+                    if u["target"][0] != "self" and u in reads:
+                        reads.remove(u)
+                    break
 
     def fold(self, n):
         try:
